@@ -221,6 +221,15 @@ func (d *Driver) Open() (reterr error) {
 		d.Transport.Args.Port,
 	)
 
+	if d.readDone != nil {
+		select {
+		case <-d.done:
+		default:
+			// opening again without a Close in between: the previous session is shut down first
+			_ = d.Close()
+		}
+	}
+
 	select {
 	case <-d.done:
 		// opening again after a Close: the done signal of the previous session is used up. the read
